@@ -33,11 +33,15 @@ MANIFEST = {
             'skips running executions below a finished child: known finding, corpus/C10/tree_pause_skips.json); '
             'function-level dispatch_into_paused_creates_no_task, dispatch_list_into_paused_creates_no_task, '
             'complete_in_paused_creates_no_task; the propagation on concrete trees (pause root / leaf, resume root / leaf, '
-            'pause then cancel). pause_propagates / pause_acknowledged_tree / pause_only_pauses (ALL reachable trees: a '
-            'pause request on an unfinished execution does not raise and every execution reached through unfinished '
-            'sub-workflows at any depth is PAUSED in the same transaction, which creates no row and only moves '
-            'RUNNING to PAUSED; Lemmas/TreeProp). NOT proved for all trees: the calling task of each paused execution '
-            'is PAUSED; resume brings them back (decided by the tree stream and its monitors).',
+            'pause then cancel). pause_subtree / pause_acknowledged_tree / pause_only_pauses / pause_calling_task (ALL '
+            'reachable trees: a pause request on an unfinished execution does not raise; EVERY execution at or below it '
+            'that is not completed is PAUSED in the same transaction, which creates no row and only moves RUNNING to '
+            'PAUSED; the RUNNING plain calling task of each execution it pauses is PAUSED in the same transaction, for a '
+            'with-items calling task the update job is pending; Lemmas/TreeProp, Lemmas/TreeFollow; needs repo patch 23 '
+            'for executions below a finished child). resume_pauses_nothing / resume_acknowledged_tree (EVERY tree and state: a '
+            'resume request never raises, pauses nothing, and the resumed execution leaves PAUSED; Lemmas/TreeResume). NOT '
+            'proved for all trees: every PAUSED execution below the resumed one is resumed (decided by the tree stream and '
+            'its monitors).',
 }
 RULE = ('stream core: data-free single-activation programs x oracles x schedules x pause/resume/stop at random points, '
         'model vs real after every event; stream engine (mode pause): generated programs with data flow, pause and '
